@@ -110,10 +110,16 @@ def gen_pad(rng, cid, nmax=4):
             size *= s + (w[1] + w[2] if w else 0)
         if size > 150 or size == 0:
             continue
-        return {"id": cid, "ev": "Pad", "grid": {"axes": axes, "extra": extra, "ctor": ctor},
+        case = {"id": cid, "ev": "Pad", "grid": {"axes": axes, "extra": extra, "ctor": ctor},
                 "args": {"data": gen.rand_data(rng, dims_shape), "widths": widths,
                          "boundary": rand_spelling(rng, axnames, gen.RULES),
                          "fill_value": rand_spelling(rng, axnames, [-3, 0, 2, 7])}}
+        if rng.random() < 0.25:
+            # an earlier padding call on the same Grid with other per-call choices: the rule in force for THIS call is
+            # resolved from this call's arguments and the Grid's settings, not from what an earlier call was given
+            case["before"] = [{"boundary": rand_spelling(rng, axnames, gen.RULES), "fill_value": rand_spelling(rng, axnames, [-3, 0, 2, 7])}
+                              for _ in range(rng.randint(1, 2))]
+        return case
 
 
 def execute(case):
@@ -134,6 +140,11 @@ def execute(case):
         da = model.make_array(case["args"]["data"], nm, ds, name="v1")
         kw = model.call_kwargs(case["args"], nm)
         bw = {nm(a): (lo, hi) for a, lo, hi in case["args"]["widths"]}
+        for b in case.get("before", []):
+            try:
+                pad(da, grid, boundary_width=bw, **model.call_kwargs(b, nm))
+            except Exception:
+                pass
         res = pad(da, grid, boundary_width=bw, **kw)
         rec["out"] = model.encode_result(res, 1, nm)
     except Exception as ex:
